@@ -13,11 +13,11 @@ theorem PMap.shift_at (m : PMap) (d p : Pt) : PMap.shift d m p = m (p - d) := rf
 theorem Writes.translate_cons (d : Pt) (w : Pt × Color) (ws : Writes) :
     Writes.translate d (w :: ws) = (w.1 + d, w.2) :: Writes.translate d ws := rfl
 
-theorem PMap.write_shift (m : PMap) (d : Pt) (w : Pt × Color) :
-    (PMap.shift d m).write (w.1 + d, w.2) = PMap.shift d (m.write w) := by
+theorem PMap.set_shift (m : PMap) (d : Pt) (w : Pt × Color) :
+    (PMap.shift d m).set (w.1 + d, w.2) = PMap.shift d (m.set w) := by
   apply funext
   intro p
-  rw [PMap.write_at, PMap.shift_at, PMap.shift_at, PMap.write_at]
+  rw [PMap.set_at, PMap.shift_at, PMap.shift_at, PMap.set_at]
   by_cases h : p = w.1 + d
   · rw [if_pos h, if_pos ((Pt.eq_add_iff _ _ _).mp h)]
   · rw [if_neg h, if_neg (fun e => h ((Pt.eq_add_iff _ _ _).mpr e))]
@@ -27,7 +27,7 @@ theorem PMap.apply_translate (m : PMap) (ws : Writes) (d : Pt) :
     (PMap.shift d m).apply (Writes.translate d ws) = PMap.shift d (m.apply ws) := by
   induction ws generalizing m with
   | nil => rfl
-  | cons w ws ih => rw [Writes.translate_cons, PMap.apply_cons, PMap.apply_cons, PMap.write_shift, ih]
+  | cons w ws ih => rw [Writes.translate_cons, PMap.apply_cons, PMap.apply_cons, PMap.set_shift, ih]
 
 theorem PMap.shift_empty (d : Pt) : PMap.shift d PMap.empty = PMap.empty := rfl
 
